@@ -42,7 +42,7 @@ pub fn cursor_case<const N: usize, const DR: usize, const DC: usize>(table: &Tab
     assume(!(DR == 1 && row == 1 && DC == 1));
     assert!(table.accepts(&data), "C04: well-formed cursor report not recognised as a cursor report");
     let ev = dh::event_matcher_decode(1, &data);
-    witness!(row == 9, "nine");
+    witness!(row >= 2 && col >= 2, "report printed");
     match &ev {
         Some(TerminalEvent::CursorPosition(pos)) => {
             assert!(*pos == Position::new(row - 1, col - 1), "C04: cursor report decoded to another position");
@@ -173,7 +173,7 @@ pub fn kbdlevel_case<const N: usize, const D: usize>(table: &Table) {
     data[3 + D] = b'u';
     assert!(table.accepts(&data), "C04: well-formed keyboard level report not recognised");
     let ev = dh::event_matcher_decode(6, &data);
-    witness!(level == 5, "level five");
+    witness!(level >= 1, "non-zero level");
     match &ev {
         Some(TerminalEvent::KeyboardLevel(got)) => assert!(*got == level, "C04: keyboard level decoded to another value"),
         _ => assert!(false, "C04: keyboard level report not decoded"),
